@@ -101,6 +101,9 @@ def kind_diff(pid, real, model):
 LABEL = {('OPT', 2): 'OPT', ('OPT', 3): 'NONE', ('REQ', 2): 'REQ', ('REP', 2): 'REP', ('REP', 3): 'REP'}
 PACKABLE = {'DOUBLE', 'FLOAT', 'INT64', 'UINT64', 'INT32', 'FIXED64', 'FIXED32', 'BOOL', 'UINT32', 'ENUM', 'SFIXED32',
             'SFIXED64', 'SINT32', 'SINT64'}
+CTYPE = {'INT32': 'int32_t', 'SINT32': 'int32_t', 'SFIXED32': 'int32_t', 'INT64': 'int64_t', 'SINT64': 'int64_t', 'SFIXED64': 'int64_t',
+         'UINT32': 'uint32_t', 'FIXED32': 'uint32_t', 'UINT64': 'uint64_t', 'FIXED64': 'uint64_t', 'FLOAT': 'float', 'DOUBLE': 'double',
+         'BOOL': 'protobuf_c_boolean', 'BYTES': 'ProtobufCBinaryData'}
 T4 = {'INT32', 'SINT32', 'SFIXED32', 'UINT32', 'FIXED32', 'FLOAT', 'ENUM', 'BOOL'}
 
 
@@ -183,6 +186,39 @@ def oracle_C13(r):
                         wq = 'H'
                 if not x['quant'].startswith(wq):
                     out.append('message %r field %d: quantifier kind %s, expected %s' % (m['full_name'], fl['number'], x['quant'], wq))
+        # the C types of the struct members (read from the generated header)
+        hdr = '\n'.join(r.get('headers', {}).values())
+        for m in f['messages']:
+            d = md.get(m['full_name'])
+            if d is None or d['c_name'] is None:
+                continue
+            mm = re.search(r'struct\s+%s\s*\n\{(.*?)\n\};' % re.escape(d['c_name'].decode()), hdr, re.S)
+            if not mm:
+                out.append('message %r: no struct %s in the generated header' % (m['full_name'], d['c_name'].decode())); continue
+            body = mm.group(1)
+            for fl in m['fields']:
+                t = 'BYTES' if (fl['type'] == 'STRING' and fl['string_as_bytes']) else fl['type']
+                base = CTYPE.get(t)
+                stars = 0
+                if t == 'STRING':
+                    base, stars = 'char', 1
+                elif t == 'ENUM':
+                    e2 = ed.get(fl['type_name'])
+                    base = e2['c_name'].decode() if e2 and e2['c_name'] else None
+                elif t in ('MESSAGE', 'GROUP'):
+                    m2 = md.get(fl['type_name'])
+                    base = m2['c_name'].decode() if m2 and m2['c_name'] else None
+                    stars = 1
+                if base is None:
+                    continue
+                if fl['label'] == 'REP':
+                    stars += 1
+                member = fl['name'].decode().lower()
+                rx = r'^\s*(?:const\s+)?%s\s*%s\s*%s_?\s*(?:PROTOBUF_C__DEPRECATED\s*)?;' % (re.escape(base), r'\s*'.join(['\*'] * stars), re.escape(member))
+                if not re.search(rx, body, re.M):
+                    got = re.search(r'^\s*([^;\n]*?)\b%s_?\s*(?:PROTOBUF_C__DEPRECATED\s*)?;' % re.escape(member), body, re.M)
+                    out.append('message %r field %d (%s %s): struct member is declared %r, expected %s %s'
+                               % (m['full_name'], fl['number'], fl['label'], t, got.group(1).strip() if got else None, base, '*' * stars))
         for e in f['enums']:
             d = ed.get(e['full_name'])
             if d is None:
